@@ -44,7 +44,8 @@ SCRIPTS = {
     "f_import": PRE + "import no_such_module_zzz\n",
     "f_op": PRE + "o = {@+: |rhs| throw 'operator'}\nz = o + 1\n",
     "f_nested_try": PRE + "try\n  try\n    throw 'inner'\n  catch e\n    z = 'x {[1, throw 'again']} y'\ncatch e2\n  throw e2\nfinally\n  w = 1\n",
-    "f_timeout": PRE + "loop\n  y = 1\n",
+    # the limit is reached two script calls deep (not at the top level of the script)
+    "f_timeout": PRE + "spin = |n|\n  if n > 0\n    return spin(n - 1)\n  loop\n    y = 1\nspin 2\n",
     "f_compile": PRE + "y = )\n",
     "f_indent": PRE + "f = |a|\n",
 }
